@@ -30,7 +30,7 @@ def main():
         rows.append((name, conf, ",".join(det) or "MISSED", sig))
         print(rows[-1], flush=True)
     # with --only the other rows of an existing summary are kept
-    sp = os.path.join(V, "seeded", "SUMMARY.md")
+    sp = os.environ.get("SEEDALL_SUMMARY") or os.path.join(V, "seeded", "SUMMARY.md")  # a second stream writes elsewhere
     if only and os.path.exists(sp):
         have = {r[0] for r in rows}
         for line in open(sp):
